@@ -10,6 +10,7 @@ import GfaModel.Convert
 import GfaModel.Components
 import GfaModel.LinearPaths
 import GfaModel.MultiplyGraph
+import GfaModel.LineFmt
 import GfaModel.Seq
 import GfaModel.Line
 import GfaModel.Levels
@@ -309,6 +310,12 @@ def step (d : DState) (cmd : String) (args : List (List Char)) : DState × Strin
     (d, match G.Cap.capturedPath d.g (str p) with
         | .ok path => "ok " ++ "|".intercalate (path.map (G.Cap.El.show d.g))
         | .error e => "gerr " ++ e.str)
+  | "line.accept", [v, l] =>
+    (d, match (if v = "gfa1".toList then some G.Ver.gfa1 else if v = "gfa2".toList then some G.Ver.gfa2 else none) with
+        | some ver => (match LineFmt.acceptLine ver l with
+            | some b => "ok " ++ (if b then "true" else "false")
+            | none => "ok other")
+        | none => "bad-op")
   | "g.multiply", [sn, k, names] =>
     (match natOf? k with
      | some kk => gres d (G.multiply d.g (str sn) kk (if names.isEmpty then [] else (splitOnC ',' names).map str))
